@@ -119,7 +119,7 @@ pub mod state_handle {
         pub closed spec fn state_now(&self) -> State { match self { StateHandle::Sync(h) => *mutex_content(&*h.am_state) } }
     //@ fn src/writers/file_log_writer/state_handle.rs impl StateHandle / fn plain_write
     //@   ret r
-    //@   props C15
+    //@   props C15,C01,C19
     //@   rule R3 *
     //@   req[plain_write.pre.perm] forall|b: Seq<u8>| #[trigger] wb_ok(b) <==> b == buffer@
     //@   closure ~buffer.len() ## sig |_u: ()| -> (r: usize)
@@ -139,7 +139,7 @@ pub mod state_handle {
     //@   ens[StateHandle::config.post] (r is Ok) == !self.poisoned() && (r is Ok ==> r->Ok_0 == self.state_now().cfg)
     //@ fn src/writers/file_log_writer/state_handle.rs impl StateHandle / fn flush
     //@   ret r
-    //@   props C04
+    //@   props C04,C15
     //@   ens[StateHandle::flush.post.err] r is Err ==> flush_result() is Err
     //@   ens[StateHandle::flush.post.reported] !self.poisoned() && flush_result() is Err ==> r is Err
     //@ fn src/writers/file_log_writer/state_handle.rs impl StateHandle / fn reset
@@ -159,14 +159,14 @@ pub mod state_handle {
     //@   ens[StateHandle::reopen_outputfile.post.handed_over] !self.poisoned() ==> (r is Ok <==> reopen_result() is Ok)
     //@ fn src/writers/file_log_writer/state_handle.rs impl StateHandle / fn rotate
     //@   ret r
-    //@   props C18,C01
+    //@   props C18,C01,C08
     //@   rule R3 *
     //@   req[rotate.pre.perm] forall|f: bool| #[trigger] mount_ok(f) <==> f
     //@   ens[StateHandle::rotate.post] r is Ok ==> mount_result(true) is Ok
     //@   ens[StateHandle::rotate.post.handed_over] !self.poisoned() ==> r == mount_result(true)
     //@   canary
     //@ fn src/writers/file_log_writer/state_handle.rs impl StateHandle / fn shutdown
-    //@   props C04
+    //@   props C04,C15
     //@   req[StateHandle::shutdown.pre.perm] shutdown_ok()
     }
 }
